@@ -18,7 +18,7 @@ CHECKS = {
 
 CHECKS.update({
  "C06": ("seq", "model_checking", "complete enumeration of line occupancies vs ray walk; derived queries on BFS nodes",
-   "The table half of the property is decided completely: every occupancy subset of every line through every square (own square empty and occupied, off-line cross-talk squares added) goes through the public attack-board functions and is compared with a ray walk. The derived queries are compared with their geometric definitions on every node of the BFS closures and the pin/castling families.",
+   "The table half of the property is decided completely: every occupancy subset of every line through every square (own square empty and occupied, off-line cross-talk squares added) goes through the public attack-board functions and is compared with a ray walk. The derived queries are compared with their geometric definitions on every node of the BFS closures, the pin/castling/back-rank families and a two-queens family (286 000 positions with two queens of one colour: several targets for one pin query).",
    "Queen: the two halves are enumerated completely and jointly for the 12 nearest squares (QueenAttackboard is the union of the two look-ups); derived queries are bounded by the BFS depth.", "DESIGN.md §5 C06"),
  "C07": ("seq", "model_checking", "explicit-state BFS + all push/pop histories; complete key-table probe",
    "For 5 table seeds: incremental == from-scratch hash on every (node, move) of the BFS closures and families and after every push and every pop of all push sequences to depth n on game boards; the position->hash map over everything visited is a function and injective; every key of the table (read through Hash) is non-zero and pairwise distinct, so no single-component difference can cancel.",
@@ -30,28 +30,28 @@ CHECKS.update({
 
 CHECKS.update({
  "C05": ("seq", "model_checking", "exhaustive enumeration of push sequences on real game boards vs reference game",
-   "All push sequences to depth n (17+ on confined fortresses, so five-fold repetition is reached; shuffles on the start position and on castling-rights roots; roots set up with clock 93..100; every placement of two bishops around a capture; K+minor / K+P material roots), also with the tail played on a Fork() taken at every depth and with a fresh board per path, each node compared with a reference game that counts occurrences over the whole game, keeps the FIDE clock and applies the insufficient-material rule as C05 words it.",
+   "All push sequences to depth n (17+ on confined fortresses, so five-fold repetition is reached; shuffles on the start position and on castling-rights roots; roots set up with clock 93..100; every placement of two bishops around a capture; K+minor / K+P material roots), also with the tail played on a Fork() taken at every depth and with a fresh board per path, each node compared with a reference game that counts occurrences over the whole game, keeps the FIDE clock and applies the insufficient-material rule as C05 words it; mate and stalemate nets in games that already carry a draw event (unclaimed repetition, clock 100 reached by the mating move) must still be adjudicated mate / stalemate.",
    "Bounded by history length and move alphabets (stated in the evidence rule); the reference game is ~100 lines of linear scans.", "DESIGN.md §5 C05"),
 })
 
 CHECKS.update({
  "C08": ("seq", "model_checking", "exhaustive enumeration of operation words {push,pop,fork,switch} on real boards vs multi-board model",
-   "Every word of <= 8 (thorough 10) operations over push (root alphabets with castling, e.p., promotions, captures, shuffles), pop (never below a fork point), fork (<= 3 live boards) and switch is replayed on fresh real boards; after the last operation every live board's getters are compared with a reference multi-board model, the hash with the scratch hash, and after a push the C05 draw oracle runs on that board, so repetition against the common past is checked on both sides of a fork.",
+   "Every word of <= 8 (thorough 10) operations over push (root alphabets with castling, e.p., promotions, captures, shuffles), pop (never below a fork point), fork (<= 3 live boards) and switch is replayed on fresh real boards; after the last operation every live board's getters are compared with a reference multi-board model, the hash with the scratch hash, and after a push the C05 draw oracle runs on that board, so repetition against the common past is checked on both sides of a fork. The boards an engine hands out (Engine.Board) on seven games incl. drawn ones are independent of its game in both directions.",
    "Bounded by word length, alphabets and 3 live boards. Taking back below a fork point is excluded as the property says.", "DESIGN.md §5 C08"),
  "C14": ("seq", "model_checking", "explicit-state BFS x clock grid for the codec; exhaustive Move/TakeBack histories through the engine",
-   "Every BFS node and family position x 7x7 clock values x both sides round-trips through Decode/Encode in both directions (string and value identity), and the FEN the engine reports is compared with the reference game's FEN after every Move and TakeBack of all histories to depth n from roots with castling, e.p., promotions and carried-in clocks.",
+   "Every BFS node and family position x 7x7 clock values x both sides round-trips through Decode/Encode in both directions (string and value identity), and the FEN the engine reports is compared with the reference game's FEN after every Move and TakeBack of all histories to depth n from roots with castling, e.p., promotions and carried-in clocks, and for the engine set up on 4 positions x both sides x 10 half-move clocks x 7 full-move numbers (reports what it was given, the standard FEN after one move, the given FEN after the take-back).",
    "Bounded by BFS depth, clock grid and history depth.", "DESIGN.md §5 C14"),
  "C19": ("seq", "model_checking", "bounded-exhaustive enumeration of input strings (symbol words, token words with run-length macros, all 1-2 edits) and of all move strings per position",
-   "All strings of <= 5 symbols into the move/square parsers, all FEN board fields that are words of <= 5 (6) tokens including run-length macro tokens that overflow a byte-sized square cursor, valid boards crossed with field alphabets, every single (double) edit of 10 valid FENs, and all 28 672 coordinate strings per position through Engine.Move for ~500 positions: no panic, error or well-formed round-tripping value, accepted iff reference-legal, state snapshot unchanged on rejection.",
+   "All strings of <= 5 symbols into the move/square parsers, all FEN board fields that are words of <= 5 (6) tokens including run-length macro tokens that overflow a byte-sized square cursor, valid boards crossed with field alphabets, every single (double) edit of 10 valid FENs, and all 28 672 coordinate strings per position through Engine.Move for ~500 positions: no panic, error or well-formed round-tripping value, accepted iff reference-legal, state snapshot unchanged on rejection (positions one move from a seed are set up by playing that move, so there is a history to lose); Reset with ~1500 undecodable FENs on engines that have a game leaves the game as it was.",
    "Bounded alphabets and lengths; arbitrary bytes beyond the alphabets are represented by NUL, a 2-byte and an Arabic-digit rune.", "DESIGN.md §5 C19"),
  "C20": ("seq", "model_checking", "exhaustive push-sequence walks with history + all K+X v K placements vs mirrored twin game and reference rules",
-   "Every node with its history: evaluations finite, colour-blind evaluations equal on a twin board built by playing the mirrored history from the mirrored start, plausible moves legal/unique/within limit/non-empty, no-under-promotion filter exact, considerable-move predicate equal to its four rules read on the reference model, and every entry of both opening books legal.",
+   "Every node with its history: evaluations finite, colour-blind evaluations equal on a twin board built by playing the mirrored history from the mirrored start, plausible moves legal/unique/within limit/non-empty, no-under-promotion filter exact, considerable-move predicate equal to its four rules read on the reference model, and every entry of both opening books legal; through the public face: whatever Find returns on any position within 4-5 plies of the start, on the same placements with the other side to move, and (generic NewBook with e.p. lines) on every position reachable by any move order incl. single pawn steps, is legal there.",
    "Bounded by walk depth (2-3 plies of history from ~50 seeds, deeper on fortresses).", "DESIGN.md §5 C20"),
 })
 
 CHECKS.update({
  "C03": ("seq", "model_checking", "exhaustive enumeration of (root, depth, configuration) cases vs unpruned reference negamax/quiescence",
-   "Full-window alpha-beta in 7 configurations (static leaf, captures-only quiescence, TUROCHAMP, SARGON, BERNSTEIN at three branch limits) is compared at every depth 0..D on a corpus of mate nets, endgames, tactical fragments and roots whose history makes draws occur inside the tree with an unpruned reference search that uses the reference rules, draw events and score order; the PV must be legal, within depth, non-empty when it must be, its first move must attain the value, and the board must come back unchanged.",
+   "Full-window alpha-beta in 7 configurations (static leaf, captures-only quiescence, TUROCHAMP, SARGON, BERNSTEIN at three branch limits) is compared at every depth 0..D on a corpus of mate nets, endgames, tactical fragments and roots whose history makes draws occur inside the tree with an unpruned reference search that uses the reference rules, draw events and score order; the PV must be legal, within depth, non-empty when it must be, its first move must attain the value, and the board must come back unchanged. The draw roots come with equal and with unequal material; five capture-rich middlegames at depth <= 2-3 for the static configurations; searches limited to a variation (Context.Ponder = every legal first move) must return minus the reference value of that move's child.",
    "The reference search calls the implementation's evaluator and exploration predicate (that is what 'same leaf evaluation / same explored moves' means); bounded by corpus and depth; reference node budget reported if hit.", "DESIGN.md §5 C03"),
  "C11": ("seq", "model_checking", "exhaustive enumeration of search sequences sharing one table (incl. every move and reply between two iterative deepenings); every exact store and every exact entry held validated against the reference value",
    "For 17 roots x 2 position-determined configurations x 5 table sizes x 4 kinds of search sequence (iterative deepening, repeats, successive positions of a game, iterative deepening at successive positions) plus, for the low-branching roots, iterative deepening / EVERY move and EVERY reply / iterative deepening again: every search must return the table-less score and a PV starting with a best move, and every ExactBound store - mapped back to its position through the Exploration/QuietSearch seams - as well as every exact entry the table serves afterwards (swept by Read) must equal the value of that position at that depth. The same through the wrapper NewMinDepthTranspositionTable, with SARGON's nested-search plumbing over a material leaf, through the iterative-deepening driver (2270 positions analysed three times on one table, first move of every report valued) and through the engine (games played with and without a table).",
@@ -72,7 +72,7 @@ CHECKS.update({
    "searchctl.Iterative runs on the controlled scheduler with a consumer, a halter released at every step of a grid over the run, a consumer that halts on seeing depth D next to the hard-limit timer (grid and lazy), the hard-limit timer and environment answers for time.Since; every schedule within the bound is checked against direct fixed-depth searches (faithful, increasing, ends exactly when it must, Halt guarantees). TimeControl.Limits is enumerated over a complete grid.",
    "Small roots only; the 'reported before the halt was requested' clause is evaluated on what the consumer had received; plain accesses of searchctl are clock-checked and racing sites, if any, become scheduling points and the scenarios that showed them are explored again race-directed with two more deviations (none on this tree).", "DESIGN.md §5 C15"),
  "C16": ("mc", "model_checking", "stateless exploration of all schedules within a deviation bound x enumerated injection instants, real goroutines on a controlled scheduler",
-   "GUI scripts `position; go X; <interrupting word>; isready; quit|EOF` over a 10-command alphabet (words of length <= 2) run against the real driver with the interrupting command released at every step of a grid over the uninterrupted run and, separately, as a lazy thread (any scheduling point for one deviation); every schedule within the deviation bound is executed and its event log checked: no panic, no deadlock, isready answered, no stale/duplicate/unsolicited bestmove, clean shutdown.",
+   "GUI scripts `position; go X; <interrupting word>; isready; quit|EOF` over a 10-command alphabet (words of length <= 2) run against the real driver with the interrupting command released at every step of a grid over the uninterrupted run and, separately, as a lazy thread (any scheduling point for one deviation); every schedule within the deviation bound is executed and its event log checked: no panic, no deadlock, isready answered, no stale/duplicate/unsolicited bestmove (an answer for a go that had surely been superseded is one), clean shutdown. Also scripts without any position command, and scripts with the driver's buffered channels scaled down to two slots and a GUI that stops reading the output for a while (back-pressure must not become a deadlock).",
    "K v K roots with the two colours to move so that a bestmove identifies its search; horizon-cut executions are inconclusive and counted; plain accesses of the driver packages are clock-checked and racing sites, if any, become scheduling points and the scenarios that showed them are explored again race-directed with two more deviations (none on this tree).", "DESIGN.md §5 C16"),
  "C17": ("mc", "model_checking", "stateless exploration of ALL interleavings of small table harnesses (no bound) with a brute-force linearizability check and vector-clock data-race detection over rewritten plain accesses",
    "2-3 threads x 1-3 operations on colliding keys of 1-4-slot tables; every interleaving of the atomic steps (pointer load/CAS, counter update) is executed and checked: no two plain accesses to the same byte, one a store, left unordered by the happens-before relation of that interleaving (every field/element access of transposition.go is wrapped by the rewriter; vector clocks); hits return one single store's tuple, history linearizable w.r.t. the sequential table including the replacement rule, fill fraction exact at quiescence and within [0,1].",
@@ -81,8 +81,8 @@ CHECKS.update({
 
 CHECKS.update({
  "C10": ("seq", "model_checking", "exhaustive enumeration of command words over a line alphabet on a real driver vs reference game and fresh-driver differential",
-   "Every word of <= 4 (5) position/ucinewgame lines over a 13-line alphabet of extending, repeating, shortening and prefix-colliding commands is fed to a real uci.Driver (isready/readyok hand-shake); the engine's position, counters, draw state and full board snapshot must equal those of the reference game of the last command alone and of a fresh driver given only that command, and continuations on a fork must report draws exactly where the reference game does.",
-   "Bounded by word length and alphabet (two games).", "DESIGN.md §5 C10"),
+   "Every word of < 4 (5) position/ucinewgame lines over a 27-line alphabet (and of that length with a last line from a 14-line core) of extending, repeating, shortening and prefix-colliding commands - incl. lines that play on after a claimable draw, FENs differing only in letter case or clocks, a white-space variant and promotion move lists - is fed to a real uci.Driver (isready/readyok hand-shake); the engine's position, counters, draw state and full board snapshot must equal those of the reference game of the last command alone and of a fresh driver given only that command, and continuations on a fork must report draws exactly where the reference game does.",
+   "Bounded by word length and alphabet (three games); the alphabet validates its own lines at start.", "DESIGN.md §5 C10"),
  "C18": ("seq", "model_checking", "exhaustive case grids (sequential half) + stateless exploration with function-entry scheduling points (concurrent half)",
    "Sequential: every (root, depth, configuration) twice / after other searches on the same Search value / under five hash seeds / with noise from one seed must give identical (score, PV, nodes); engine operation words leave the engine's game untouched across analyze/halt; engine words over the noise option: analyses reproducible from the seed and, with the option off, equal to those of a never-noisy engine with another hash seed. Concurrent: a build with a scheduling point at the entry of every non-trivial function of board/search/eval and the historical engines explores every schedule within the bound of two engines searching side by side (also sharing one Search value) and of a noisy analysis started right after halting another one, with a halt-instant grid and each engine goroutine in turn held back (slow-thread dimension); and of each historical engine alone on castling- and capture-rich roots with the iteration order of every `for range` over a map as an explored environment choice.",
    "Concurrent half: K v K roots, depth 1-2; interleavings inside math/rand and other non-morlock code are not explored.", "DESIGN.md §5 C18"),
